@@ -25,6 +25,10 @@ using namespace sim;
 
 namespace {
 
+// equality of recorded numbers: same value (+0 and -0 are the same number), or both not-a-number
+inline bool same_num(double a, double b) { return a == b || (std::isnan(a) && std::isnan(b)); }
+inline bool same_vec(std::vector<double> const &a, std::vector<double> const &b) { if (a.size() != b.size()) return false; for (size_t i = 0; i < a.size(); i++) if (!same_num(a[i], b[i])) return false; return true; }
+
 const char *k_valid_tmpl[] = {"harm_fixed", "harm_cmove", "harm_kmove", "harm_cstage", "walls_fixed", "walls_kmove", "linear_fixed", "meta_grid", "meta_nogrid", "meta_keep", "meta_wt",
                               "histogram", "abmd", "abf", "opes", "alb", "harm_ti"};
 
@@ -409,20 +413,20 @@ RunResult run(J const &plan) {
     for (auto const &kv : b.cv) {
       auto it = a.cv.find(kv.first);
       if (it == a.cv.end()) { res.fail("rollback", "object_sets_differ", at + ": variable " + kv.first + " missing"); break; }
-      if (it->second.size() != kv.second.size() || memcmp(it->second.data(), kv.second.data(), kv.second.size() * sizeof(double)) != 0) { res.fail("rollback", "value", at + ": variable " + kv.first + " = " + fmt_double(it->second.empty() ? 0 : it->second[0]) + ", twin " + fmt_double(kv.second.empty() ? 0 : kv.second[0])); break; }
+      if (!same_vec(it->second, kv.second)) { res.fail("rollback", "value", at + ": variable " + kv.first + " = " + fmt_double(it->second.empty() ? 0 : it->second[0]) + ", twin " + fmt_double(kv.second.empty() ? 0 : kv.second[0])); break; }
       compared++;
     }
     if (res.violation) break;
     for (auto const &kv : b.be) {
       auto it = a.be.find(kv.first);
       if (it == a.be.end()) { res.fail("rollback", "object_sets_differ", at + ": bias " + kv.first + " missing"); break; }
-      if (memcmp(&it->second, &kv.second, sizeof(double)) != 0) { res.fail("rollback", "bias_energy", at + ": bias " + kv.first + " energy " + fmt_double(it->second) + ", twin " + fmt_double(kv.second)); break; }
+      if (!same_num(it->second, kv.second)) { res.fail("rollback", "bias_energy", at + ": bias " + kv.first + " energy " + fmt_double(it->second) + ", twin " + fmt_double(kv.second)); break; }
     }
     if (res.violation) break;
-    if (a.fapp.size() != b.fapp.size() || memcmp(a.fapp.data(), b.fapp.data(), a.fapp.size() * sizeof(double)) != 0) {
+    if (!same_vec(a.fapp, b.fapp)) {
       size_t k = 0; while (k < a.fapp.size() && k < b.fapp.size() && a.fapp[k] == b.fapp[k]) k++;
       res.fail("rollback", "atom_force", at + ": force component " + std::to_string(k) + " = " + fmt_double(k < a.fapp.size() ? a.fapp[k] : 0) + ", twin " + fmt_double(k < b.fapp.size() ? b.fapp[k] : 0));
-    } else if (memcmp(&a.energy, &b.energy, sizeof(double)) != 0) res.fail("rollback", "total_energy", at + ": " + fmt_double(a.energy) + ", twin " + fmt_double(b.energy));
+    } else if (!same_num(a.energy, b.energy)) res.fail("rollback", "total_energy", at + ": " + fmt_double(a.energy) + ", twin " + fmt_double(b.energy));
     fp = fnv_dbl(a.energy, fp);
   }
   if (res.violation && res.oracle == "rollback" && at_i < test.snaps.size() && at_i < twin.snaps.size()) {
